@@ -9,6 +9,6 @@ FINISH = dict(rule="R1 MC_Quoters Inv_C04 (a canonical text is a fixed point of 
 
 
 def run(out, sc, tier, seed):
-    run_quoter_level(out, sc, tier, seed, "C04")
-    n = 15000 if tier == "quick" else 400000
+    run_quoter_level(out, sc, tier, seed, "C04", bounds=({"charcore": 4} if tier == "thorough" else None))
+    n = 15000 if tier == "quick" else 120000
     run_progs(out, sc, "C04", {"gen": "canon", "n": n, "seed": seed}, "canon", shard_size=3000)
